@@ -248,6 +248,8 @@ def main(argv=None):
             print('  witness: %s/%s %s' % (v['prop'], v['kind'], v['msg'][:300]))
             print('VIOLATION property=%s replay=%s' % (prop, v.get('replay', 'n/a')))
         return 1
+    if inconc:
+        print('  inconclusive cases: ' + ', '.join('%s=%d' % kv for kv in sorted(inconc.items(), key=lambda kv: -kv[1])[:5]))
     if verdict == 'inconclusive':
         print('INCONCLUSIVE property=%s nontrivial=%d needed=%d errors=%d' % (prop, len(nontrivial), need, len(worker_errors)))
         return 2
